@@ -1165,7 +1165,9 @@ class WorkflowConductor(object):
         ctx = {}
 
         for ctx_idx in ctx_idxs:
-            ctx = dict_util.merge_dicts(ctx, self.workflow_state.contexts[ctx_idx], overwrite=True)
+            # Merge a copy so that nested values of a stored context are not modified in place.
+            ctx_entry = json_util.deepcopy(self.workflow_state.contexts[ctx_idx])
+            ctx = dict_util.merge_dicts(ctx, ctx_entry, overwrite=True)
 
         return ctx
 
